@@ -535,6 +535,8 @@ fn follow(spec: &StreamSpec, frames: &[Frame], base: usize, len: usize, out_fram
 	Ok(())
 }
 
+static LOOPS_BY_HANDLE: std::sync::atomic::AtomicU64 = std::sync::atomic::AtomicU64::new(0);
+
 fn stream_case(bytes: Arc<Vec<u8>>, loaded: &StaticSoundData, spec: &StreamSpec) -> Result<StreamOut, String> {
 	let sr = loaded.sample_rate;
 	let (base, len) = spec.slice.map(|(a, b)| (a, b - a)).unwrap_or((0, loaded.frames.len()));
@@ -544,11 +546,23 @@ fn stream_case(bytes: Arc<Vec<u8>>, loaded: &StaticSoundData, spec: &StreamSpec)
 	}
 	// (the start position is given in frames or - one case in three - as a time a quarter of a frame past it: rounds to it)
 	d = if spec.start % 3 == 1 { d.start_position(PlaybackPosition::Seconds((spec.start as f64 + 0.25) / sr as f64)) } else { d.start_position(PlaybackPosition::Samples(spec.start)) };
-	if let Some((a, b)) = spec.lp {
+	// every other loop region whose end lies more than one decoder ring (16 384 frames) past the start position is given
+	// through the handle before the first callback instead of as a setting (open-ended when it runs to the end of the sound):
+	// nothing decoded before the decoder thread has read the command depends on it, so the frames are the same
+	let lp_by_handle = spec.lp.map(|(_, b)| b > spec.start + 16_384 + 200 && (spec.start + b) % 2 == 0).unwrap_or(false);
+	if let (Some((a, b)), false) = (spec.lp, lp_by_handle) {
 		d = d.loop_region(region(a, b));
 	}
 	let (mut sound, mut h) = d.into_sound().map_err(|e| format!("into_sound failed on a valid file: {}", err_name(&e)))?;
 	let dec = crate::hooks::last_decoder().ok_or("decoder hook not observed")?;
+	if let (Some((a, b)), true) = (spec.lp, lp_by_handle) {
+		if b == len {
+			h.set_loop_region(Region { start: PlaybackPosition::Samples(a), end: EndPosition::EndOfAudio });
+		} else {
+			h.set_loop_region(region(a, b));
+		}
+		LOOPS_BY_HANDLE.fetch_add(1, std::sync::atomic::Ordering::Relaxed);
+	}
 	// the handle reports the start position from the beginning (a seek_by issued before the first callback is relative to it)
 	if spec.slice.is_none() && spec.start < len && (h.position() * sr as f64 - spec.start as f64).abs() > 1.0 {
 		return Err(format!("before the first callback the handle reports position {} s = frame {:.2}, the start position is frame {}", h.position(), h.position() * sr as f64, spec.start));
@@ -648,6 +662,12 @@ fn stream_case(bytes: Arc<Vec<u8>>, loaded: &StaticSoundData, spec: &StreamSpec)
 	if out.inconclusive {
 		return Ok(out);
 	}
+	if let (true, Some((a, b)), false) = (out.ended, spec.lp, out.spurious_eof) {
+		// nothing stops a looping sound that began before its loop end (the seeks of such a case land inside the loop)
+		if spec.start < b {
+			return Err(format!("the sound ended although the loop region {}..{} (of {} frames{}) was in force from the start (start position {})", a, b, len, if lp_by_handle { ", given through the handle before the first callback" } else { "" }, spec.start));
+		}
+	}
 	if out.ended && spec.lp.is_none() {
 		// everything up to the last frame was played and every seek issued while the decoder was alive landed
 		let final_e = cands.iter().map(|c| c.0).max().unwrap_or(0);
@@ -699,7 +719,8 @@ fn gen_stream_spec(r: &mut Rng, n: usize, sr: u32) -> StreamSpec {
 	let lp = if r.chance(0.3) && len > 3000 {
 		// (also loop starts on a packet boundary of the file: 1152 frames for symphonia's WAV reader)
 		let a = if r.chance(0.3) { (r.usize_in(0, len - 2500) / 1152) * 1152 } else { r.usize_in(0, len - 2500) };
-		let b = r.usize_in(a + 1500, len);
+		// (one loop in four runs to the end of the sound)
+		let b = if r.chance(0.25) { len } else { r.usize_in(a + 1500, len) };
 		Some((a, b))
 	} else {
 		None
@@ -1095,6 +1116,7 @@ pub fn run(ctx: &mut Ctx) {
 			}
 		}
 	}
+	ctx.count("stream_cases_with_the_loop_region_given_through_the_handle", LOOPS_BY_HANDLE.load(std::sync::atomic::Ordering::Relaxed));
 	ctx.count("streamed_frames_matched_to_file_frames", streamed_frames);
 	ctx.count("silent_output_frames_while_waiting_or_after_end", gaps);
 	ctx.count("seek_landings_observed", landed);
